@@ -459,6 +459,8 @@ def _feas(si, lo, hi):
 def concretize(si):
     """fork over every feasible concrete value of a symbolic int, in ascending order (canonical, so
     that replay is deterministic): binary search for the least feasible value under the path condition"""
+    if si.w > 13:
+        raise Unsupported("concretisation of a wide symbolic int (%d bits)" % si.w)
     while True:
         lo, hi = -(1 << (si.w - 1)), (1 << (si.w - 1)) - 1
         if not _feas(si, lo, hi):
